@@ -347,7 +347,7 @@ static void check_poly(long long idx, Ctx &c)
         RCP<const Basic> want = (n >= 0 && n <= PDEG) ? COEF[ix[n]] : RCP<const Basic>(zero);
         std::string kc = key(*expand(cf)), kw = key(*expand(want));
         if (kc != kw) {
-            c.violation("coeff:" + std::string(form ? "expanded" : "raw") + ":" + cls(*v, 0) + ":c=" + cls(*want, 0),
+            c.violation("coeff:" + std::string(form ? "expanded" : "raw") + ":" + cls(*v, 0) + (n < 0 ? ":n<0" : n == 0 ? ":n=0" : n > PDEG ? ":n>deg" : ":n>0"),
                         "coeff(" + what + ", " + sstr(v) + ", " + std::to_string(n) + ") = " + sstr(cf) + " but the coefficient is " + sstr(want));
             return;
         }
